@@ -65,9 +65,13 @@ def _rand_steps(rng, tree, start, nsteps, p_miss, canon):
             miss = rng.random() < p_miss
             nxt = None
             if cur is not None and cur["k"] in ("d", "c") and kids and not miss:
-                k = rng.choice(kids)
+                k = rng.choice([x for x in kids if x["name"] is not None] or kids)
                 s = k["name"]
                 nxt = k
+                if s is None:
+                    # an unnamed field has no spelling as an AST name step (the empty step is reached through
+                    # the malformed stream: '//')
+                    s, nxt = "a", None
             elif cur is not None and cur["k"] in ("l", "a", "m", "j") and not miss:
                 i = rng.randrange(0, len(kids) + 1) if rng.random() < 0.2 or not kids else rng.randrange(0, len(kids))
                 if kids and rng.random() < 0.15:
@@ -135,7 +139,7 @@ def _make_canon(steps):
     return ups + rest
 
 
-MALFORMED_ALPHABET = ["/", ".", "[", "]", ":", "-", "0", "1", "2", "a", "b", "\\", "\n", " ", "_", "+", "٣", "x", "//", "..", "[:]", "[-1]",
+MALFORMED_ALPHABET = ["/", ".", "[", "]", ":", "-", "0", "1", "2", "a", "b", "\\", "\n", " ", "_", "+", "٣", "x", "//", "//", "..", "[:]", "[-1]",
                       "\\/", "\\.", "\\[", "\\]", "[0]", "[x]", "é"]
 
 
